@@ -623,7 +623,13 @@ def store(eng, a, sl, v, st, node):
             idx = [I0] * (va.ndim - len(idx)) + idx
         return va.elem(*idx)
 
-    return Arr(a.ndim, a.shape, lambda *i: _ite(inside(*i), _trunc_if_int(a, rhs_at(*i)), a.elem(*i), a.dtype), a.dtype, intdtype=a.intdtype)
+    r = Arr(a.ndim, a.shape, lambda *i: _ite(inside(*i), _trunc_if_int(a, rhs_at(*i)), a.elem(*i), a.dtype), a.dtype, intdtype=a.intdtype)
+    if a.ndim == 2 and a.dtype == "num" and va.ndim == 1 and kinds[0][0] == "int" and kinds[1][0] == "slice" and is_lit(kinds[1][1], 0) \
+            and z3.simplify(kinds[1][2]).eq(z3.simplify(a.shape[1])) and a.intdtype is None:
+        # whole-row assignment a[k] = v: row identity of the new array
+        k0 = kinds[0][1]
+        r.rowf = lambda i: z3.If(i == k0, va.row(None), a.row(i))
+    return r
 
 
 def _ite(c, x, y, dtype):
@@ -938,7 +944,10 @@ def np_append(eng, st, args, kw, node):
         return Val.of_arr(r)
     if a.ndim == 2 and ax == 0:
         ra = a.shape[0]
-        return Val.of_arr(Arr(2, (z3.simplify(ra + b.shape[0]), a.shape[1]), lambda i, j: _ite(i < ra, a.elem(i, j), b.elem(i - ra, j), a.dtype), a.dtype))
+        r = Arr(2, (z3.simplify(ra + b.shape[0]), a.shape[1]), lambda i, j: _ite(i < ra, a.elem(i, j), b.elem(i - ra, j), a.dtype), a.dtype)
+        if a.dtype == "num":
+            r.rowf = lambda i: z3.If(i < ra, a.row(i), b.row(i - ra))
+        return Val.of_arr(r)
     return opaque("append")
 
 
